@@ -58,7 +58,7 @@ theorem checkMOp_good {H : Home} {tw : Ticket → Bool} {d : Doc} {op : UOp} (h 
 
 def checkMRun (H : Home) : Hist → List MEdit → Bool
   | _, [] => true
-  | h, e :: es => checkMOp H h.tw h.doc (e.op h.next) && checkMRun H (doMEdit h e) es
+  | h, e :: es => checkMOp H noTw h.doc (e.op h.next) && checkMRun H (doMEdit h e) es
 
 theorem checkMRun_ok {H : Home} : ∀ {es : List MEdit} {h : Hist}, checkMRun H h es = true → MEditsOk H h es
   | [], _, _ => trivial
